@@ -292,7 +292,7 @@ def fam_death_starve(rng, n, tag="dstarve"):
         out.append(s)
     return out
 
-def fam_delay(rng, n, tag="delay"):
+def fam_delay(rng, n, tag="delay", expect=("nodisconnect",)):
     """C11: set_input_delay at arbitrary moments, values 0..=6, several local players with
     different delays, decrease-then-increase, changes while stalled, spectators attached"""
     out = []
@@ -301,7 +301,7 @@ def fam_delay(rng, n, tag="delay"):
         per = rng.choice([1, 2]) if n_peers == 2 else 1
         players = n_peers * per
         s = Scen("%s_%d" % (tag, i), players=players, window=rng.choice([0, 2, 8]), lat=rng.choice([5, 30]), seed=rng.randrange(1 << 30),
-                 sparse=0, pred=rng.choice(["repeat", "default"]), inputrun=rng.choice([1, 2]), expect=["nodisconnect"])
+                 sparse=0, pred=rng.choice(["repeat", "default"]), inputrun=rng.choice([1, 2]), expect=list(expect))
         per_l = _topology(rng, s, n_peers, players, delays=(0, 1, 3))
         if rng.random() < 0.5:
             s.spec(9, 1, players, catchup=2, maxbehind=5)
@@ -490,6 +490,27 @@ def fam_lead(rng, n, tag="lead"):
         s.p2p(1, [0]); s.p2p(2, [1])
         fast = rng.choice([10, 12, 14])
         s.ticks(1, 0, 9000, fast); s.ticks(2, 3, 9000, 16)
+        out.append(s)
+    return out
+
+def fam_ping(rng, n, tag="ping"):
+    """C15: clean symmetric links with every one-way latency 0..=100 ms (boundaries of the 200 ms
+    quality-report period included), fps 30/60/120, some with a slow handshake (loss of the first
+    sync packets); every tick checks network_stats(): numbers only once a quality reply arrived,
+    ping within [2*lat, 2*lat + polling slack]"""
+    out = []
+    lats = list(range(0, 101, 5)) + [1, 2, 47, 93, 96, 97, 98, 99, 100]
+    for i in range(n):
+        lat = lats[i % len(lats)] if i < 2 * len(lats) else rng.randrange(0, 101)
+        fps = rng.choice([30, 60, 120])
+        period = {30: 33, 60: 16, 120: 8}[fps]
+        s = Scen("%s_%d" % (tag, i), players=2, window=8, lat=lat, seed=rng.randrange(1 << 30), fps=fps, inputrun=3,
+                 expect=["nodisconnect", "ping%d" % (2 * period + 2)])
+        s.p2p(1, [0]); s.p2p(2, [1])
+        if rng.random() < 0.4:     # slow handshake: the first sync packets of one direction are lost
+            s.link(1, 2, faults=[(k, "drop", 0) for k in range(rng.randrange(2, 7))])
+        o2 = rng.randrange(0, period)
+        s.ticks(1, 0, 5000, period); s.ticks(2, o2, 5000, period)
         out.append(s)
     return out
 
